@@ -5,7 +5,7 @@ import subprocess
 
 VERIF = os.path.dirname(os.path.dirname(os.path.dirname(os.path.abspath(__file__))))
 
-HOOK_COMMITS = ["7a450d7", "cf46330"]
+HOOK_COMMITS = ["7a450d7", "cf46330", "1e97848"]
 
 CHECKS = {
     "C03": dict(
